@@ -425,6 +425,19 @@ Section WalkProofs.
     rewrite Hst in Hs. discriminate.
   Qed.
 
+  (* NO DEADLOCK, ABORTED RUNS INCLUDED, when main does not keep a Receiver of
+     the paths channel: the hang needs [keeps_rx = true], so EVERY state that is
+     not final (reachable or not, aborted or not) has an enabled step: after
+     the last worker left its loop the walker's send fails and the walk ends. *)
+  Theorem no_deadlock_receiver_dropped : forall s,
+    keeps_rx = false -> cap >= 1 -> terminal s = false -> exists l s', step s l = Some s'.
+  Proof.
+    intros s Hk Hcap Ht.
+    destruct (progress_or_hang (fun _ => COk) s Hcap Ht) as [(t & _ & Hs)|Hh].
+    - destruct (step s (label_of (fun _ => COk) s t)) eqn:E; [|discriminate]. eauto.
+    - destruct Hh as (_ & _ & _ & _ & Hk'). congruence.
+  Qed.
+
   (* ------------------------------------------------------------ the scheduler *)
   Theorem run_schedule_sound : forall fate picks s,
     exec (schedule_trace fate picks s) s = Some (run_schedule fate picks s).
